@@ -81,124 +81,79 @@ def showTbl (layout : Bool) (t : T) : String :=
     let es := (t.toList.map fun (k, v) => (k.id, v)).foldr insertSorted []
     "{" ++ joinWith "," (es.map fun (i, v) => s!"k{i}={v}") ++ "}E" ++ toString t.elements
 
+/-- the state-changing operations are those of the model's `mstep` -/
+def toModelOp : Op → Option (Elk.HashMap.Op Key Int)
+  | .new c => some (.new c)
+  | .set m k v => some (.set m k v)
+  | .del m k => some (.del m k)
+  | .setcap m c => some (.setcap m c)
+  | .grow m n => some (.grow m n)
+  | .clone m => some (.clone m)
+  | .clonecap m c => some (.clonecap m c)
+  | .cat a b => some (.cat a b)
+  | .copy t s => some (.copy t s)
+  | .add m k => some (.set m k 0)        -- sets are tables whose value is irrelevant (printed as 0)
+  | .union a b => some (.union a b)
+  | .inter a b => some (.inter a b)
+  | _ => none
+
 /-- one operation on the object list: new object list and answer (`none` = dangling id) -/
-def step (layout : Bool) (objs : List T) : Op → Option (List T × String)
-  | .new c => some (objs ++ [Tbl.new c], s!"o:{objs.length}")
-  | .set m k v => do
-      let t ← objs[m]?
-      match Elk.HashMap.set khash keqv t k v with
-      | .ok t' => pure (objs.set m t', "-")
-      | .panic => pure (objs, "panic")
-  | .get m k => do
-      let t ← objs[m]?
-      match get khash keqv t k with
-      | .ok .absent => pure (objs, "absent")
-      | .ok (.val v) => pure (objs, s!"v:{v}")
-      | .panic => pure (objs, "panic")
-  | .has m k => do
-      let t ← objs[m]?
-      match containsKey khash keqv t k with
-      | .ok b => pure (objs, s!"b:{b}")
-      | .panic => pure (objs, "panic")
-  | .del m k => do
-      let t ← objs[m]?
-      match delete khash keqv t k with
-      | .ok (t', b) => pure (objs.set m t', s!"b:{b}")
-      | .panic => pure (objs, "panic")
-  | .len m => do
-      let t ← objs[m]?
-      pure (objs, s!"v:{t.elements}")
-  | .setcap m c => do
-      let t ← objs[m]?
-      match setCapacity khash keqv t c with
-      | .ok t' => pure (objs.set m t', "-")
-      | .panic => pure (objs, "panic")
-  | .grow m n => do
-      let t ← objs[m]?
-      match setCapacity khash keqv t (t.cap + n) with
-      | .ok t' => pure (objs.set m t', "-")
-      | .panic => pure (objs, "panic")
-  | .clone m => do
-      let t ← objs[m]?
-      pure (objs ++ [t], s!"o:{objs.length}")
-  | .clonecap m c => do
-      let t ← objs[m]?
-      match cloneCap khash keqv t c with
-      | .ok t' => pure (objs ++ [t'], s!"o:{objs.length}")
-      | .panic => pure (objs, "panic")
-  | .cat a b => do
-      let x ← objs[a]?
-      let y ← objs[b]?
-      match concat khash keqv x y with
-      | .ok t' => pure (objs ++ [t'], s!"o:{objs.length}")
-      | .panic => pure (objs, "panic")
-  | .copy t s => do
-      let x ← objs[t]?
-      let y ← objs[s]?
-      match copy khash keqv x y with
-      | .ok t' => pure (objs.set t t', "-")
-      | .panic => pure (objs, "panic")
-  | .eq a b => do
-      let x ← objs[a]?
-      let y ← objs[b]?
-      match equal khash keqv (fun (v w : Int) => v == w) x y with
-      | .ok r => pure (objs, s!"b:{r}")
-      | .panic => pure (objs, "panic")
-  | .items m => do
-      let t ← objs[m]?
-      let es := t.toList.map fun (k, v) => (k.id, v)
-      let es := if layout then es else es.foldr insertSorted []
-      pure (objs, "[" ++ joinWith "," (es.map fun (i, v) => s!"k{i}={v}") ++ "]")
-  | .add m k => do
-      let t ← objs[m]?
-      -- sets are tables whose value is irrelevant (printed as 0)
-      match containsKey khash keqv t k, setWithMaxLoad khash keqv t k 0 3 4 with
-      | .ok b, .ok t' => pure (objs.set m t', s!"b:{!b}")
-      | _, _ => pure (objs, "panic")
-  | .union a b => do
-      let x ← objs[a]?
-      let y ← objs[b]?
-      let longer := if x.elements > y.elements then x else y
-      let shorter := if x.elements > y.elements then y else x
-      match copy khash keqv (Tbl.new (shorter.elements + longer.elements)) longer with
-      | .panic => pure (objs, "panic")
-      | .ok acc =>
-        let r := shorter.toList.foldl (fun (acc : Res T) (kv : Key × Int) =>
-          match acc with
-          | .panic => .panic
-          | .ok t => setWithMaxLoad khash keqv t kv.1 0 3 4) (.ok acc)
-        match r with
-        | .ok t' => pure (objs ++ [t'], s!"o:{objs.length}")
+def step (layout : Bool) (objs : List T) (op : Op) : Option (List T × String) :=
+  match toModelOp op with
+  | some mop =>
+    -- the answer of a state-changing operation is computed before the step
+    let ans : Option String :=
+      match op with
+      | .del m k => do
+          let t ← objs[m]?
+          match containsKey khash keqv t k with
+          | .ok b => pure s!"b:{b}"
+          | .panic => pure "panic"
+      | .add m k => do
+          let t ← objs[m]?
+          match containsKey khash keqv t k with
+          | .ok b => pure s!"b:{!b}"
+          | .panic => pure "panic"
+      | .new _ | .clone _ | .clonecap _ _ | .cat _ _ | .union _ _ | .inter _ _ => some s!"o:{objs.length}"
+      | _ => some "-"
+    match mstep khash keqv 0 objs mop, ans with
+    | some (.ok objs'), some a => some (objs', a)
+    | some .panic, some _ => some (objs, "panic")
+    | _, _ => none
+  | none =>
+    match op with
+    | .get m k => do
+        let t ← objs[m]?
+        match get khash keqv t k with
+        | .ok .absent => pure (objs, "absent")
+        | .ok (.val v) => pure (objs, s!"v:{v}")
         | .panic => pure (objs, "panic")
-  | .inter a b => do
-      let x ← objs[a]?
-      let y ← objs[b]?
-      let longer := if x.elements > y.elements then x else y
-      let shorter := if x.elements > y.elements then y else x
-      let r := shorter.toList.foldl (fun (acc : Res T) (kv : Key × Int) =>
-        match acc with
-        | .panic => .panic
-        | .ok t =>
-          match containsKey khash keqv longer kv.1 with
-          | .panic => .panic
-          | .ok false => .ok t
-          | .ok true => setWithMaxLoad khash keqv t kv.1 0 3 4) (.ok (Tbl.new 5))
-      match r with
-      | .ok t' => pure (objs ++ [t'], s!"o:{objs.length}")
-      | .panic => pure (objs, "panic")
-  | .seq a b => do
-      let x ← objs[a]?
-      let y ← objs[b]?
-      if x.elements ≠ y.elements then pure (objs, "b:false")
-      else
-        let r := x.toList.foldl (fun (acc : Res Bool) (kv : Key × Int) =>
-          match acc with
-          | .panic => .panic
-          | .ok false => .ok false
-          | .ok true => containsKey khash keqv y kv.1) (.ok true)
-        match r with
+    | .has m k => do
+        let t ← objs[m]?
+        match containsKey khash keqv t k with
+        | .ok b => pure (objs, s!"b:{b}")
+        | .panic => pure (objs, "panic")
+    | .len m => do
+        let t ← objs[m]?
+        pure (objs, s!"v:{t.elements}")
+    | .eq a b => do
+        let x ← objs[a]?
+        let y ← objs[b]?
+        match equal khash keqv (fun (v w : Int) => v == w) x y with
         | .ok r => pure (objs, s!"b:{r}")
         | .panic => pure (objs, "panic")
+    | .seq a b => do
+        let x ← objs[a]?
+        let y ← objs[b]?
+        match sEqual khash keqv x y with
+        | .ok r => pure (objs, s!"b:{r}")
+        | .panic => pure (objs, "panic")
+    | .items m => do
+        let t ← objs[m]?
+        let es := t.toList.map fun (k, v) => (k.id, v)
+        let es := if layout then es else es.foldr insertSorted []
+        pure (objs, "[" ++ joinWith "," (es.map fun (i, v) => s!"k{i}={v}") ++ "]")
+    | _ => none
 
 def showChanges (layout : Bool) (before after : List T) : String :=
   let parts := (List.range after.length).filterMap fun id =>
